@@ -177,6 +177,16 @@ var pureOps = []pureOp{
 		}
 		return sb.String()
 	}},
+	{"Interpolate", func(a, b *sharedVal) string {
+		var sb strings.Builder
+		for _, d := range a.g.Dump() {
+			if d.IsLineString() && !d.IsEmpty() {
+				ls := d.MustAsLineString()
+				sb.WriteString(ls.InterpolatePoint(0.3).AsText() + ls.InterpolateEvenlySpacedPoints(4).AsText())
+			}
+		}
+		return sb.String()
+	}},
 	{"UnionMany", func(a, b *sharedVal) string {
 		// a slice shared by the callers: the functions that take a slice must not reorder or overwrite it
 		if a.list == nil {
